@@ -137,6 +137,11 @@ def check(repo: Repo) -> Result:
 
     r5 = res.rule("C10-R5", "CGS <-> SI electromagnetic counterparts convert back to the original numbers: the pairing table is closed under reversal with reciprocal factors and pairs the em_dimensions partners (the absolute Gaussian-SI values are C03-R4)", floor=20)
     share(res, r5, "C03", lambda t: c03.em_table(repo, t), ["C03-R4"], want=lambda k: not k.endswith(":factor"), min_keys=20)
+
+    from rules import c11
+
+    r6 = res.rule("C10-R6", "a deep copy of a registry keeps its default unit system, so in_base() on a copied quantity stays inside that system (shared with C11-R3)", floor=1)
+    share(res, r6, "C11", lambda t: c11.rebuilt_from_table(repo, t), ["C11-R3"], want=lambda k: k == "__deepcopy__:unit-system")
     return res
 
 
@@ -399,4 +404,5 @@ MUTANTS = [
     Mutant("default-system-getattr-chain", REG, "_sanitize_unit_system", "        try:\n            unit_system = obj.units.registry.unit_system\n        except AttributeError:\n            unit_system = mks_unit_system", "        units = getattr(obj, \"units\", None)\n        registry = getattr(units, \"registry\", None)\n        unit_system = getattr(registry, \"unit_system\", mks_unit_system)", (), benign=True),
     Mutant("em-one-direction-changed", UO, None, '        "statV",\n        1.0e-8 * speed_of_light_cm_per_s,', '        "statV",\n        1.0e8 / speed_of_light_cm_per_s,', ("C10-R5",)),
     Mutant("in-base-unchanged-on-equal-value", ARR, "unyt_array.in_base", "            to_units = self.units.get_base_equivalent(unit_system)\n", "            to_units = self.units.get_base_equivalent(unit_system)\n            if to_units == self.units:\n                return self.copy()\n", ("C10-R3",)),
+    Mutant("deepcopy-drops-unit-system", REG, "UnitRegistry.__deepcopy__", "add_default_symbols=False, lut=lut, unit_system=self.unit_system", "add_default_symbols=False, lut=lut", ("C10-R6",)),
 ]
